@@ -1154,7 +1154,20 @@ fn run(c: &Case, rec: &mut Rec) -> CaseResult {
                     if notime.verdict == Verdict::Secure {
                         // only the clock speaks against it: the RRset's own RRSIG window, or the
                         // window of the RRSIG over the DNSKEY RRset (cached DNSKEY verdict)
-                        let own_window_ok = reference.rrset2(&tmsg, &owner, rtype, now, true, false).verdict == Verdict::Secure;
+                        let own = reference.rrset2(&tmsg, &owner, rtype, now, true, false);
+                        let own_window_ok = own.verdict == Verdict::Secure;
+                        // The RRset's own signature is inside its window; what has run out is the
+                        // signature over the DNSKEY RRset. A verdict on *this* RRset that was
+                        // established while the whole chain was valid may be served until the TTL
+                        // authenticated then has run down (RFC 4035 5.3.3 bounds it by the RRset's own
+                        // RRSIG only; the DNSKEY RRset has a verdict and a lifetime of its own).
+                        let now_ns = clock::virtual_nanos();
+                        if own_window_ok && earlier.iter().any(|(t0, ttl0)| (now_ns - t0) / 1_000_000_000 <= *ttl0 as u64) {
+                            rec.class("secure-from-cached-verdict-after-dnskey-signature-expired");
+                            let bound = own.max_ttl.unwrap_or(0);
+                            vensure!(r.ttl <= bound, "cached-ttl-exceeds-remaining-signature-lifetime", "{what}, bound min(OrigTTL, expiration-now) = {bound} (verdict served from the validation cache)");
+                            continue;
+                        }
                         let cached_at = if own_window_ok { key_repeat.or(earlier.first().map(|e| e.0)) } else { earlier.first().map(|e| e.0) };
                         if let Some(t0) = cached_at {
                             let age = (clock::virtual_nanos() - t0) / 1_000_000_000;
